@@ -603,7 +603,7 @@ class Explorer:
                     lo_, hi_ = (b[2], off) if off > b[2] else (off, b[2])
                     if lo_ < 0: raise Found('out-of-bounds', i.loc, 'pointer moved before the start of the input string')
                     if any(e_[0] != 'c' for e_ in cells_[lo_:min(hi_, len(cells_))]): raise Imprecise('pointer moved across abstracted cells at %s' % i.loc)
-                    if hi_ > len(cells_) + 1: raise Imprecise('pointer moved beyond the cells read so far at %s' % i.loc)
+                    if hi_ > len(cells_) + 8: raise Imprecise('pointer moved far beyond the cells read so far at %s' % i.loc)      # (cells skipped unread are materialised, in order, when the target is accessed)
                 fr.regs[i.id] = ('p', b[1], off)
         elif op == 'load':
             fr.regs[i.id] = self.load(st, V(0), i)
